@@ -1,4 +1,5 @@
 import Cascette.Props.C09
+import Cascette.Proofs.CryptoTie
 open Cascette.Props.C09
 #print axioms salsa20_model_eq_spec
 #print axioms salsa20_iv_len_guard
@@ -11,3 +12,18 @@ open Cascette.Props.C09
 #print axioms arc4_key_len_guard
 #print axioms arc4_decrypt_encrypt
 #print axioms arc4_piecewise
+-- translator tie: definitions generated from the current Rust source = model definitions
+#print axioms Cascette.Proofs.CryptoTie.quarter_round_tie
+#print axioms Cascette.Proofs.CryptoTie.round_body_tie
+#print axioms Cascette.Proofs.CryptoTie.generate_tie
+#print axioms Cascette.Proofs.CryptoTie.generate_idioms_tie
+#print axioms Cascette.Proofs.CryptoTie.refill_tie
+#print axioms Cascette.Proofs.CryptoTie.init_state_tie
+#print axioms Cascette.Proofs.CryptoTie.mix_tie
+#print axioms Cascette.Proofs.CryptoTie.final_mix_tie
+#print axioms Cascette.Proofs.CryptoTie.hashlittle_block_tie
+#print axioms Cascette.Proofs.CryptoTie.hashlittle2_block_tie
+#print axioms Cascette.Proofs.CryptoTie.hashlittle_tail_tie
+#print axioms Cascette.Proofs.CryptoTie.hashlittle2_tail_tie
+#print axioms Cascette.Proofs.CryptoTie.hashlittle_init_tie
+#print axioms Cascette.Proofs.CryptoTie.hashlittle2_init_tie
